@@ -103,8 +103,9 @@ Section Parser.
               | _ => None
               end
             else match o with
-                 | 111 :: 102 :: 42 :: p' =>           (* "of*..." : Keyword("of") ends before '*' *)
-                     if forallb is_patc p' then Some (a_sel qq (42 :: p'), r) else None
+                 | c1 :: c2 :: c3 :: p' =>             (* "of*..." : Keyword("of") ends before '*' *)
+                     if (c1 =? 111) && (c2 =? 102) && (c3 =? c_star) && forallb is_patc p'
+                     then Some (a_sel qq (c_star :: p'), r) else None
                  | _ => None
                  end
         | None => None
